@@ -6,26 +6,25 @@ import Rg.Proofs.Trunc
 /-!
 # The model of the comment-rule runner meets `SpecC12.verdict`
 
-(under the hypotheses collected in `WFOracle` / `WFRule` / `NoCR`-style byte agreement; see
-`C12.model_meets_spec_partial`).
+(under the hypotheses collected in `WFOracle` / `WFRule` / `View`; see `C12.model_meets_spec`).
 -/
 namespace CM
-open SpecC12 (firstNamed groupOf groupIdx varText varSpan longestName interpolate)
+open SpecC12 (firstNamed groupOf groupIdx varText varSpan longestName interpolate fileSpan spanBytesOK delCR)
 
 theorem slice_eq (b : Bytes) (lo hi : Nat) : SpecC12.slice b lo hi = slice b lo hi := rfl
 
 /-! ## looking a variable up -/
 
-theorem groupCap_name (off : Nat) (text : Bytes) (v : List Int) (i : Nat) (name : Bytes) :
-    (groupCap off text v i name).name = name := by
+theorem groupCap_name (src : Bytes) (off : Nat) (text : Bytes) (v : List Int) (i : Nat) (name : Bytes) :
+    (groupCap src off text v i name).name = name := by
   unfold groupCap
   split
   · split <;> rfl
   · rfl
 
-theorem find_namedCaps (off : Nat) (text : Bytes) (v : List Int) (name : Bytes) (hne : name ≠ []) (i : Nat) (names : List Bytes) :
-    (namedCaps off text v i names).find? (fun c => c.name = name) =
-      (firstNamed name i names).map fun j => groupCap off text v j name := by
+theorem find_namedCaps (src : Bytes) (off : Nat) (text : Bytes) (v : List Int) (name : Bytes) (hne : name ≠ []) (i : Nat) (names : List Bytes) :
+    (namedCaps src off text v i names).find? (fun c => c.name = name) =
+      (firstNamed name i names).map fun j => groupCap src off text v j name := by
   induction names generalizing i with
   | nil => simp [namedCaps, firstNamed]
   | cons n rest ih =>
@@ -80,59 +79,69 @@ theorem firstNamed_of_mem (name : Bytes) (i : Nat) (hi : i ≠ 0) (names : List 
 
 /-! ## a captured group is what the spec says about that group -/
 
-theorem groupCap_spec (off : Nat) (text : Bytes) (v : List Int) (j : Nat) (name : Bytes) (hwf : WFGroup text v j) :
-    (groupCap off text v j name).node.text =
+theorem groupCap_spec (src : Bytes) (off : Nat) (text : Bytes) (v : List Int) (j : Nat) (name : Bytes) (hwf : WFGroup text v j) :
+    (groupCap src off text v j name).node.text =
         (match groupIdx v j with | some (lo, hi) => SpecC12.slice text lo hi | none => []) ∧
-      ((groupCap off text v j name).node.pos, (groupCap off text v j name).node.endPos) =
-        (match groupIdx v j with | some (lo, hi) => (off + lo, off + hi) | none => (off, off)) := by
+      ((groupCap src off text v j name).node.pos, (groupCap src off text v j name).node.endPos) =
+        (match groupIdx v j with | some (lo, hi) => fileSpan src off text lo hi | none => (off, off)) := by
   obtain ⟨b, e, hb, he, hcase⟩ := hwf
   unfold groupCap groupIdx
   simp only [hb, he]
   by_cases hneg : b < 0 ∨ e < 0
-  · simp [hneg, Node.endPos]
+  · simp [hneg]
   · rw [if_neg hneg, if_neg hneg]
-    have hin : InRange text b e := by
-      rcases hcase with h | h | h
-      · exact absurd (.inl h) hneg
-      · exact absurd (.inr h) hneg
-      · exact h
-    obtain ⟨h0, h1, h2⟩ := hin
-    refine ⟨rfl, ?_⟩
-    simp only [Node.endPos, slice_length text b.toNat e.toNat (by omega) (by omega), Prod.mk.injEq, true_and]
-    omega
-
-/-- the file holds a node's text at the node's span (what `nodeText` needs to be exact) -/
-def BytesOK (msrc : Bytes) (n : Node) : Prop := n.endPos < msrc.length → slice msrc n.pos n.endPos = n.text
+    exact ⟨rfl, rfl⟩
 
 theorem slice_empty (b : Bytes) (i : Nat) : slice b i i = [] := by simp [slice]
 
-theorem groupCap_bytes (src : Bytes) (off : Nat) (text : Bytes) (v : List Int) (j : Nat) (name : Bytes) (hwf : WFGroup text v j)
-    (hno : NoCR src off text) :
-    slice src (groupCap off text v j name).node.pos (groupCap off text v j name).node.endPos = (groupCap off text v j name).node.text := by
-  obtain ⟨b, e, hb, he, hcase⟩ := hwf
-  unfold groupCap
-  simp only [hb, he]
-  by_cases hneg : b < 0 ∨ e < 0
-  · simp [hneg, Node.endPos, slice_empty]
-  · rw [if_neg hneg]
-    have hin : InRange text b e := by
-      rcases hcase with h | h | h
-      · exact absurd (.inl h) hneg
-      · exact absurd (.inr h) hneg
-      · exact h
-    obtain ⟨h0, h1, h2⟩ := hin
-    simp only [Node.endPos, slice_length text b.toNat e.toNat (by omega) (by omega)]
-    have : off + b.toNat + (e.toNat - b.toNat) = off + e.toNat := by omega
-    rw [this]
-    exact span_bytes src text off b.toNat e.toNat hno (by omega) (by omega)
+theorem delCR_of_del {s t : Bytes} (h : Del s t) : delCR s t = true := by
+  induction s generalizing t with
+  | nil => cases h; rfl
+  | cons b s ih =>
+    cases t with
+    | nil =>
+      cases h with
+      | skip h' => simp [delCR, cr, ih h']
+    | cons w ws =>
+      by_cases hbw : b = w
+      · subst hbw
+        have h' : Del s ws := by
+          cases h with
+          | keep _ h' => exact h'
+          | skip h' => exact h'.drop_cr
+        simp [delCR, ih h']
+      · cases h with
+        | keep _ _ => exact absurd rfl hbw
+        | skip h' =>
+          have hbw' : ¬ ((13 : UInt8) = w) := hbw
+          simp [delCR, cr, hbw', ih h']
 
-theorem groupCap_end (off : Nat) (text : Bytes) (v : List Int) (j : Nat) (name : Bytes) (hwf : WFGroup text v j) :
-    (groupCap off text v j name).node.endPos ≤ off + text.length := by
+/-- **the file's bytes at a piece's span are the piece**: equal up to the carriage returns the scanner removed,
+and beginning and ending with the piece's first and last byte -/
+theorem spanNode_bytes {msrc src : Bytes} {size off : Nat} {text : Bytes} (vw : View msrc src size off text)
+    (lo hi : Nat) (hle : lo ≤ hi) (hhi : hi ≤ text.length) :
+    spanBytesOK (slice src (spanNode src off text lo hi).pos (spanNode src off text lo hi).endPos) (spanNode src off text lo hi).text = true := by
+  obtain ⟨K, hK⟩ := crtext_after vw.cr
+  obtain ⟨a, b, he, _, _, _, _, _, _, hdel, hhead, hlast⟩ := spanC_spec hK off lo hi hle hhi
+  have hfs := fileSpan_eq src off text lo hi K hle hhi hK
+  rw [he] at hfs
+  simp only [spanNode, hfs]
+  rw [slice_drop, slice_text] at hdel hhead hlast
+  unfold spanBytesOK
+  have e1 : slice src (off + a) (off + b) = SpecC12.slice src (off + a) (off + b) := rfl
+  have e2 : slice text lo hi = SpecC12.slice text lo hi := rfl
+  rw [e1, e2, delCR_of_del hdel, hhead, hlast]
+  simp
+
+theorem groupCap_bytes {msrc src : Bytes} {size off : Nat} {text : Bytes} (vw : View msrc src size off text)
+    (v : List Int) (j : Nat) (name : Bytes) (hwf : WFGroup text v j) :
+    spanBytesOK (slice src (groupCap src off text v j name).node.pos (groupCap src off text v j name).node.endPos)
+      (groupCap src off text v j name).node.text = true := by
   obtain ⟨b, e, hb, he, hcase⟩ := hwf
   unfold groupCap
   simp only [hb, he]
   by_cases hneg : b < 0 ∨ e < 0
-  · simp [hneg, Node.endPos]
+  · simp [hneg, slice_empty, spanBytesOK, delCR]
   · rw [if_neg hneg]
     have hin : InRange text b e := by
       rcases hcase with h | h | h
@@ -140,8 +149,7 @@ theorem groupCap_end (off : Nat) (text : Bytes) (v : List Int) (j : Nat) (name :
       · exact absurd (.inr h) hneg
       · exact h
     obtain ⟨h0, h1, h2⟩ := hin
-    simp only [Node.endPos, slice_length text b.toNat e.toNat (by omega) (by omega)]
-    omega
+    exact spanNode_bytes vw b.toNat e.toNat (by omega) (by omega)
 
 /-! ## hypotheses: what the regexp oracle guarantees, and which rules are in the property's domain -/
 
@@ -156,8 +164,8 @@ structure WFOracle (text : Bytes) (r : CRule) : Prop where
 /-- a variable the rule may mention: `$$` or the name of one of its groups -/
 def VarOK (names : List Bytes) (var : Bytes) : Prop := var = dollarDollar ∨ (var ≠ [] ∧ var ∈ names)
 
-theorem namedCaps_unnamed (off : Nat) (text : Bytes) (v : List Int) (i : Nat) (names : List Bytes)
-    (h : ∀ n, n ∈ names → n = []) : namedCaps off text v i names = [] := by
+theorem namedCaps_unnamed (src : Bytes) (off : Nat) (text : Bytes) (v : List Int) (i : Nat) (names : List Bytes)
+    (h : ∀ n, n ∈ names → n = []) : namedCaps src off text v i names = [] := by
   induction names generalizing i with
   | nil => rfl
   | cons n rest ih =>
@@ -166,13 +174,14 @@ theorem namedCaps_unnamed (off : Nat) (text : Bytes) (v : List Int) (i : Nat) (n
     exact ih (i + 1) (fun n' hn' => h n' (List.mem_cons_of_mem _ hn'))
 
 /-- the match data the runner builds, in closed form -/
-def matchOf (off : Nat) (text : Bytes) (names : List Bytes) (v : List Int) (lo hi : Int) : MatchD :=
-  ⟨⟨off + lo.toNat, slice text lo.toNat hi.toNat⟩, namedCaps off text v 0 names⟩
+def matchOf (src : Bytes) (off : Nat) (text : Bytes) (names : List Bytes) (v : List Int) (lo hi : Int) : MatchD :=
+  ⟨spanNode src off text lo.toNat hi.toNat, namedCaps src off text v 0 names⟩
 
-theorem buildMatch_spec (size off : Nat) (text : Bytes) (r : CRule) (hwf : WFOracle text r) (hfit : off + text.length ≤ size) :
-    (r.sub = none → buildMatch size off text r = .ok none) ∧
+theorem buildMatch_spec {msrc src : Bytes} {size off : Nat} {text : Bytes} (vw : View msrc src size off text) (r : CRule)
+    (hwf : WFOracle text r) :
+    (r.sub = none → buildMatch msrc size off text r = .ok none) ∧
     (∀ v, r.sub = some v → ∃ lo hi, v[0]? = some lo ∧ v[1]? = some hi ∧ InRange text lo hi ∧
-      buildMatch size off text r = .ok (some (matchOf off text r.names v lo hi))) := by
+      buildMatch msrc size off text r = .ok (some (matchOf src off text r.names v lo hi))) := by
   constructor
   · intro hnone
     unfold buildMatch
@@ -187,11 +196,11 @@ theorem buildMatch_spec (size off : Nat) (text : Bytes) (r : CRule) (hwf : WFOra
     by_cases hcg : r.captureGroups = true
     · rw [if_pos hcg, hv]
       simp only
-      rw [group_text_core size off text v 0 r.names (fun j _ h2 => hg j (by omega)) hfit]
-      simp only [Res.bind, h0, h1, mkNode_ok size off text lo hi hl0 hl1 hl2 hfit]
+      rw [group_text_core vw v 0 r.names (fun j _ h2 => hg j (by omega))]
+      simp only [Res.bind, h0, h1, mkNode_ok vw lo hi hl0 hl1 hl2]
     · rw [if_neg hcg, hidx]
-      simp only [mkNode_ok size off text lo hi hl0 hl1 hl2 hfit, Res.bind]
-      rw [namedCaps_unnamed off text v 0 r.names (hwf.fast (by simpa using hcg))]
+      simp only [mkNode_ok vw lo hi hl0 hl1 hl2, Res.bind]
+      rw [namedCaps_unnamed src off text v 0 r.names (hwf.fast (by simpa using hcg))]
 
 /-! ## a variable resolves to the node the spec prescribes -/
 
@@ -201,27 +210,21 @@ theorem groupIdx_zero (v : List Int) (lo hi : Int) (h0 : v[0]? = some lo) (h1 : 
   simp only [Nat.mul_zero, Nat.zero_add, h0, h1]
   rw [if_neg (by omega)]
 
-theorem lookup_spec (src : Bytes) (off : Nat) (text : Bytes) (names : List Bytes) (v : List Int) (lo hi : Int)
+theorem lookup_spec {msrc src : Bytes} {size off : Nat} {text : Bytes} (vw : View msrc src size off text)
+    (names : List Bytes) (v : List Int) (lo hi : Int)
     (hnames : ∃ rest, names = [] :: rest) (hg : ∀ j, j < names.length → WFGroup text v j)
     (h0 : v[0]? = some lo) (h1 : v[1]? = some hi) (hin : InRange text lo hi) (var : Bytes) (hvar : VarOK names var) :
-    ∃ n, capturedByName (matchOf off text names v lo hi) var = some n ∧
-      varText text names v var = some n.text ∧ varSpan off names v var = some (n.pos, n.endPos) ∧
-      n.endPos ≤ off + text.length ∧ (NoCR src off text → slice src n.pos n.endPos = n.text) := by
+    ∃ n, capturedByName (matchOf src off text names v lo hi) var = some n ∧
+      varText text names v var = some n.text ∧ varSpan src off text names v var = some (n.pos, n.endPos) ∧
+      spanBytesOK (slice src n.pos n.endPos) n.text = true := by
   obtain ⟨hl0, hl1, hl2⟩ := hin
   by_cases hdd : var = dollarDollar
   · subst hdd
-    refine ⟨⟨off + lo.toNat, slice text lo.toNat hi.toNat⟩, ?_, ?_, ?_, ?_, ?_⟩
+    refine ⟨spanNode src off text lo.toNat hi.toNat, ?_, ?_, ?_, ?_⟩
     · simp [capturedByName, matchOf]
-    · simp [varText, groupOf, dollarDollar, groupIdx_zero v lo hi h0 h1 hl0 (by omega), slice_eq]
-    · simp only [varSpan, groupOf, dollarDollar, if_true, Option.map_some, groupIdx_zero v lo hi h0 h1 hl0 (by omega),
-        Node.endPos, slice_length text lo.toNat hi.toNat (by omega) (by omega), Option.some.injEq, Prod.mk.injEq, true_and]
-      omega
-    · simp only [Node.endPos, slice_length text lo.toNat hi.toNat (by omega) (by omega)]; omega
-    · intro hno
-      simp only [Node.endPos, slice_length text lo.toNat hi.toNat (by omega) (by omega)]
-      have : off + lo.toNat + (hi.toNat - lo.toNat) = off + hi.toNat := by omega
-      rw [this]
-      exact span_bytes src text off lo.toNat hi.toNat hno (by omega) (by omega)
+    · simp [varText, groupOf, dollarDollar, groupIdx_zero v lo hi h0 h1 hl0 (by omega), slice_eq, spanNode]
+    · simp [varSpan, groupOf, dollarDollar, groupIdx_zero v lo hi h0 h1 hl0 (by omega), spanNode]
+    · exact spanNode_bytes vw lo.toNat hi.toNat (by omega) (by omega)
   · rcases hvar with h | ⟨hne, hmem⟩
     · exact absurd h hdd
     obtain ⟨rest, hrest⟩ := hnames
@@ -235,30 +238,17 @@ theorem lookup_spec (src : Bytes) (off : Nat) (text : Bytes) (names : List Bytes
       rw [hrest]; unfold firstNamed; rw [if_neg (by simp)]; exact hj
     have hb := firstNamed_bounds var 0 names j hj0
     have hwfj : WFGroup text v j := hg j (by omega)
-    refine ⟨(groupCap off text v j var).node, ?_, ?_, ?_, ?_, ?_⟩
+    refine ⟨(groupCap src off text v j var).node, ?_, ?_, ?_, ?_⟩
     · simp only [capturedByName, hdd, if_false, matchOf]
-      rw [find_namedCaps off text v var hne 0 names, hj0]
+      rw [find_namedCaps src off text v var hne 0 names, hj0]
       rfl
     · simp only [varText, groupOf, show ¬ var = [36, 36] from hdd, hne, if_false, hj0, Option.map_some, Option.some.injEq]
-      exact (groupCap_spec off text v j var hwfj).1.symm
+      exact (groupCap_spec src off text v j var hwfj).1.symm
     · simp only [varSpan, groupOf, show ¬ var = [36, 36] from hdd, hne, if_false, hj0, Option.map_some, Option.some.injEq]
-      exact (groupCap_spec off text v j var hwfj).2.symm
-    · exact groupCap_end off text v j var hwfj
-    · intro hno; exact groupCap_bytes src off text v j var hwfj hno
+      exact (groupCap_spec src off text v j var hwfj).2.symm
+    · exact groupCap_bytes vw v j var hwfj
 
 /-! ## texts read by filters and templates -/
-
-/-- the bytes the runner reads: nothing (file unreadable), or the file the spec is about -/
-def SrcOK (msrc src : Bytes) : Prop := msrc = [] ∨ msrc = src
-
-theorem nodeText_of (msrc src : Bytes) (size off : Nat) (text : Bytes) (n : Node) (hs : SrcOK msrc src)
-    (hno : NoCR src off text) (hend : n.endPos ≤ off + text.length) (hfit : off + text.length ≤ size)
-    (hb : NoCR src off text → slice src n.pos n.endPos = n.text) : nodeText msrc size n = .ok n.text := by
-  apply nodeText_exact msrc size n (by omega)
-  intro hlt
-  rcases hs with rfl | rfl
-  · simp at hlt
-  · exact hb hno
 
 theorem interp_ok (b : Bool) (t : Bytes) (cfg : Int) : interp b t cfg = .ok (SpecC12.okBytes (interp b t cfg)) := by
   cases b
@@ -267,13 +257,9 @@ theorem interp_ok (b : Bool) (t : Bytes) (cfg : Int) : interp b t cfg = .ok (Spe
     obtain ⟨r, hr⟩ := trunc_total t (effLen cfg)
     rw [hr]; rfl
 
-theorem substText_of (msrc src : Bytes) (size off : Nat) (text : Bytes) (n : Node) (truncate : Bool) (cfg : Int)
-    (hs : SrcOK msrc src) (hno : NoCR src off text) (hend : n.endPos ≤ off + text.length) (hfit : off + text.length ≤ size)
-    (hb : NoCR src off text → slice src n.pos n.endPos = n.text) :
-    substText msrc size truncate cfg n = .ok (SpecC12.okBytes (interp truncate n.text cfg)) := by
-  unfold substText
-  rw [nodeText_of msrc src size off text n hs hno hend hfit hb]
-  simp only [Res.bind]
+theorem substText_of (n : Node) (truncate : Bool) (cfg : Int) :
+    substText truncate cfg n = .ok (SpecC12.okBytes (interp truncate n.text cfg)) := by
+  unfold substText nodeText
   exact interp_ok truncate n.text cfg
 
 /-- the spec's reading of one filter atom -/
@@ -282,34 +268,41 @@ def specAtomHolds (text : Bytes) (names : List Bytes) (v : List Int) (a : SpecC1
   | some t => (t == a.2.2) == a.1
   | none => false
 
-theorem evalFilter_spec (msrc src : Bytes) (size off : Nat) (text : Bytes) (names : List Bytes) (v : List Int) (lo hi : Int)
+theorem evalFilter_spec {msrc src : Bytes} {size off : Nat} {text : Bytes} (vw : View msrc src size off text)
+    (names : List Bytes) (v : List Int) (lo hi : Int)
     (hnames : ∃ rest, names = [] :: rest) (hg : ∀ j, j < names.length → WFGroup text v j)
     (h0 : v[0]? = some lo) (h1 : v[1]? = some hi) (hin : InRange text lo hi)
-    (hs : SrcOK msrc src) (hno : NoCR src off text) (hfit : off + text.length ≤ size)
     (atoms : List Atom) (hvars : ∀ a, a ∈ atoms → VarOK names (atomVar a)) :
-    evalFilter msrc size (matchOf off text names v lo hi) atoms =
+    evalFilter (matchOf src off text names v lo hi) atoms =
       .ok ((atoms.map atomToSpec).all (specAtomHolds text names v)) := by
   induction atoms with
   | nil => rfl
   | cons a rest ih =>
     have ihr := ih (fun a' ha' => hvars a' (List.mem_cons_of_mem _ ha'))
-    obtain ⟨n, hc, ht, _, hend, hb⟩ := lookup_spec src off text names v lo hi hnames hg h0 h1 hin (atomVar a)
+    obtain ⟨n, hc, ht, _, _⟩ := lookup_spec vw names v lo hi hnames hg h0 h1 hin (atomVar a)
       (hvars a List.mem_cons_self)
-    have hnt := nodeText_of msrc src size off text n hs hno hend hfit hb
     unfold evalFilter
     cases a with
     | textEq var lit =>
       simp only [atomVar] at hc ht
-      simp only [hc, hnt, Res.bind, List.map_cons, List.all_cons, atomToSpec, specAtomHolds, ht]
-      by_cases hcmp : ((n.text == lit) == true) = true
-      · rw [if_pos hcmp, ihr]; simp [hcmp]
-      · rw [if_neg hcmp]; simp [hcmp]
+      simp only [hc, List.map_cons, List.all_cons, atomToSpec, specAtomHolds, ht]
+      by_cases hcmp : ((nodeText n == lit) == true) = true
+      · rw [if_pos hcmp, ihr]
+        simp only [nodeText] at hcmp
+        simp [hcmp]
+      · rw [if_neg hcmp]
+        simp only [nodeText] at hcmp
+        simp [hcmp]
     | textNe var lit =>
       simp only [atomVar] at hc ht
-      simp only [hc, hnt, Res.bind, List.map_cons, List.all_cons, atomToSpec, specAtomHolds, ht]
-      by_cases hcmp : ((n.text == lit) == false) = true
-      · rw [if_pos hcmp, ihr]; simp [hcmp]
-      · rw [if_neg hcmp]; simp [hcmp]
+      simp only [hc, List.map_cons, List.all_cons, atomToSpec, specAtomHolds, ht]
+      by_cases hcmp : ((nodeText n == lit) == false) = true
+      · rw [if_pos hcmp, ihr]
+        simp only [nodeText] at hcmp
+        simp [hcmp]
+      · rw [if_neg hcmp]
+        simp only [nodeText] at hcmp
+        simp [hcmp]
 
 /-! ## which capture a `$name` in a template picks -/
 
@@ -375,9 +368,9 @@ theorem find_unique {α : Type} (p : α → Bool) (l l' : List α) (hmem : ∀ x
 def NamesOK (names : List Bytes) : Prop :=
   ∀ (j1 j2 : Nat) (a b : Bytes), names[j1]? = some a → names[j2]? = some b → a ≠ [] → b ≠ [] → a <+: b → j1 = j2
 
-theorem mem_namedCaps (off : Nat) (text : Bytes) (v : List Int) (i : Nat) (names : List Bytes) (c : Cap) :
-    c ∈ namedCaps off text v i names ↔
-      ∃ j a, i ≤ j ∧ j ≠ 0 ∧ names[j - i]? = some a ∧ a ≠ [] ∧ c = groupCap off text v j a := by
+theorem mem_namedCaps (src : Bytes) (off : Nat) (text : Bytes) (v : List Int) (i : Nat) (names : List Bytes) (c : Cap) :
+    c ∈ namedCaps src off text v i names ↔
+      ∃ j a, i ≤ j ∧ j ≠ 0 ∧ names[j - i]? = some a ∧ a ≠ [] ∧ c = groupCap src off text v j a := by
   induction names generalizing i with
   | nil => simp [namedCaps]
   | cons n rest ih =>
@@ -425,8 +418,8 @@ theorem prefix_comparable {α : Type} {a b l : List α} (ha : a <+: l) (hb : b <
   · exact .inr (List.prefix_of_prefix_length_le hb ha h)
 
 /-- at most one capture's name is a prefix of what follows the `$` -/
-theorem caps_unique (off : Nat) (text : Bytes) (v : List Int) (names : List Bytes) (hok : NamesOK names) (rest : Bytes)
-    (c d : Cap) (hc : c ∈ namedCaps off text v 0 names) (hd : d ∈ namedCaps off text v 0 names)
+theorem caps_unique (src : Bytes) (off : Nat) (text : Bytes) (v : List Int) (names : List Bytes) (hok : NamesOK names) (rest : Bytes)
+    (c d : Cap) (hc : c ∈ namedCaps src off text v 0 names) (hd : d ∈ namedCaps src off text v 0 names)
     (pc : c.name.isPrefixOf rest = true) (pd : d.name.isPrefixOf rest = true) : c = d := by
   rw [mem_namedCaps] at hc hd
   obtain ⟨j1, a, _, _, ha, hane, rfl⟩ := hc
@@ -442,14 +435,14 @@ theorem caps_unique (off : Nat) (text : Bytes) (v : List Int) (names : List Byte
     rw [ha] at hb; simp only [Option.some.injEq] at hb; rw [hb]
 
 /-- the list the template loop searches (sorted when longer than one) finds what the unsorted list finds -/
-theorem find_sorted (off : Nat) (text : Bytes) (v : List Int) (names : List Bytes) (hok : NamesOK names) (rest : Bytes) :
-    let caps := namedCaps off text v 0 names
+theorem find_sorted (src : Bytes) (off : Nat) (text : Bytes) (v : List Int) (names : List Bytes) (hok : NamesOK names) (rest : Bytes) :
+    let caps := namedCaps src off text v 0 names
     (if caps.length > 1 then sortCaps caps else caps).find? (fun c => c.name.isPrefixOf rest) =
       caps.find? (fun c => c.name.isPrefixOf rest) := by
   intro caps
   split
   · exact find_unique _ caps (sortCaps caps) (mem_sortCaps caps)
-      (fun c d hc hd pc pd => caps_unique off text v names hok rest c d hc hd pc pd)
+      (fun c d hc hd pc pd => caps_unique src off text v names hok rest c d hc hd pc pd)
   · rfl
 
 /-! ## the spec's "longest name" is the capture the loop finds -/
@@ -516,16 +509,16 @@ theorem mem_tail_iff (names : List Bytes) (a : Bytes) : a ∈ names.tail ↔ ∃
       obtain ⟨i, rfl⟩ : ∃ i, j = i + 1 := ⟨j - 1, by omega⟩
       exact ⟨i, by simpa using h⟩
 
-theorem find_longest (off : Nat) (text : Bytes) (v : List Int) (names : List Bytes) (hok : NamesOK names) (r : Bytes) :
-    match (namedCaps off text v 0 names).find? (fun c => c.name.isPrefixOf r) with
-    | some c => longestName names.tail r = some c.name ∧ c ∈ namedCaps off text v 0 names
+theorem find_longest (src : Bytes) (off : Nat) (text : Bytes) (v : List Int) (names : List Bytes) (hok : NamesOK names) (r : Bytes) :
+    match (namedCaps src off text v 0 names).find? (fun c => c.name.isPrefixOf r) with
+    | some c => longestName names.tail r = some c.name ∧ c ∈ namedCaps src off text v 0 names
     | none => longestName names.tail r = none := by
-  cases hf : (namedCaps off text v 0 names).find? (fun c => c.name.isPrefixOf r) with
+  cases hf : (namedCaps src off text v 0 names).find? (fun c => c.name.isPrefixOf r) with
   | some c =>
     have hcm := List.mem_of_find?_eq_some hf
     have hcp : c.name.isPrefixOf r = true := by simpa using List.find?_some hf
     refine ⟨?_, hcm⟩
-    obtain ⟨j, a, _, hj0, ha, hane, rfl⟩ := (mem_namedCaps off text v 0 names c).1 hcm
+    obtain ⟨j, a, _, hj0, ha, hane, rfl⟩ := (mem_namedCaps src off text v 0 names c).1 hcm
     simp only [Nat.sub_zero] at ha
     simp only [groupCap_name] at hcp ⊢
     apply longestName_unique
@@ -544,14 +537,14 @@ theorem find_longest (off : Nat) (text : Bytes) (v : List Int) (names : List Byt
     apply longestName_none
     rintro a ha ⟨hne, hp⟩
     obtain ⟨j, hj, hget⟩ := (mem_tail_iff names a).1 ha
-    have hmem : groupCap off text v j a ∈ namedCaps off text v 0 names :=
-      (mem_namedCaps off text v 0 names _).2 ⟨j, a, Nat.zero_le _, hj, by simpa using hget, hne, rfl⟩
+    have hmem : groupCap src off text v j a ∈ namedCaps src off text v 0 names :=
+      (mem_namedCaps src off text v 0 names _).2 ⟨j, a, Nat.zero_le _, hj, by simpa using hget, hne, rfl⟩
     rw [List.find?_eq_none] at hf
     have := hf _ hmem
     simp [groupCap_name, hp] at this
 
-theorem caps_name_unique (off : Nat) (text : Bytes) (v : List Int) (names : List Bytes) (hok : NamesOK names)
-    (c d : Cap) (hc : c ∈ namedCaps off text v 0 names) (hd : d ∈ namedCaps off text v 0 names) (hn : c.name = d.name) : c = d := by
+theorem caps_name_unique (src : Bytes) (off : Nat) (text : Bytes) (v : List Int) (names : List Bytes) (hok : NamesOK names)
+    (c d : Cap) (hc : c ∈ namedCaps src off text v 0 names) (hd : d ∈ namedCaps src off text v 0 names) (hn : c.name = d.name) : c = d := by
   rw [mem_namedCaps] at hc hd
   obtain ⟨j1, a, _, _, ha, hane, rfl⟩ := hc
   obtain ⟨j2, b, _, _, hb, hbne, rfl⟩ := hd
@@ -568,29 +561,27 @@ structure Ctx (msrc src : Bytes) (size off : Nat) (text : Bytes) (names : List B
   h0 : v[0]? = some lo
   h1 : v[1]? = some hi
   inRange : InRange text lo hi
-  srcOK : SrcOK msrc src
-  noCR : NoCR src off text
-  fit : off + text.length ≤ size
+  view : View msrc src size off text
   namesOK : NamesOK names
   noDollar : dollarDollar ∉ names
 
 /-- the text the loop substitutes for a variable that resolves is the text the spec substitutes -/
 theorem subst_var {msrc src : Bytes} {size off : Nat} {text : Bytes} {names : List Bytes} {v : List Int} {lo hi : Int}
     (cx : Ctx msrc src size off text names v lo hi) (truncate : Bool) (cfg : Int) (var : Bytes) (hvar : VarOK names var)
-    (n : Node) (hn : capturedByName (matchOf off text names v lo hi) var = some n) :
-    substText msrc size truncate cfg n =
+    (n : Node) (hn : capturedByName (matchOf src off text names v lo hi) var = some n) :
+    substText truncate cfg n =
       .ok (SpecC12.okBytes (interp truncate ((varText text names v var).getD []) cfg)) := by
-  obtain ⟨n', hc, ht, _, hend, hb⟩ := lookup_spec src off text names v lo hi cx.names0 cx.groups cx.h0 cx.h1 cx.inRange var hvar
+  obtain ⟨n', hc, ht, _, _⟩ := lookup_spec cx.view names v lo hi cx.names0 cx.groups cx.h0 cx.h1 cx.inRange var hvar
   rw [hn] at hc
   simp only [Option.some.injEq] at hc
   subst hc
   rw [ht]
-  exact substText_of msrc src size off text n truncate cfg cx.srcOK cx.noCR hend cx.fit hb
+  exact substText_of n truncate cfg
 
 theorem cap_lookup {msrc src : Bytes} {size off : Nat} {text : Bytes} {names : List Bytes} {v : List Int} {lo hi : Int}
-    (cx : Ctx msrc src size off text names v lo hi) (c : Cap) (hc : c ∈ namedCaps off text v 0 names) :
-    VarOK names c.name ∧ capturedByName (matchOf off text names v lo hi) c.name = some c.node := by
-  obtain ⟨j, a, _, hj0, ha, hane, hceq⟩ := (mem_namedCaps off text v 0 names c).1 hc
+    (cx : Ctx msrc src size off text names v lo hi) (c : Cap) (hc : c ∈ namedCaps src off text v 0 names) :
+    VarOK names c.name ∧ capturedByName (matchOf src off text names v lo hi) c.name = some c.node := by
+  obtain ⟨j, a, _, hj0, ha, hane, hceq⟩ := (mem_namedCaps src off text v 0 names c).1 hc
   simp only [Nat.sub_zero] at ha
   have hname : c.name = a := by rw [hceq, groupCap_name]
   have hmem : a ∈ names := List.mem_of_getElem? ha
@@ -598,7 +589,7 @@ theorem cap_lookup {msrc src : Bytes} {size off : Nat} {text : Bytes} {names : L
     intro h; rw [hname] at h; rw [h] at hmem; exact cx.noDollar hmem
   refine ⟨.inr ⟨by rw [hname]; exact hane, by rw [hname]; exact hmem⟩, ?_⟩
   simp only [capturedByName, hdd, if_false, matchOf]
-  cases hf : (namedCaps off text v 0 names).find? (fun d => d.name = c.name) with
+  cases hf : (namedCaps src off text v 0 names).find? (fun d => d.name = c.name) with
   | none =>
     rw [List.find?_eq_none] at hf
     have := hf c hc
@@ -606,7 +597,7 @@ theorem cap_lookup {msrc src : Bytes} {size off : Nat} {text : Bytes} {names : L
   | some d =>
     have hdm := List.mem_of_find?_eq_some hf
     have hdn : d.name = c.name := by simpa using List.find?_some hf
-    rw [caps_name_unique off text v names cx.namesOK d c hdm hc hdn]
+    rw [caps_name_unique src off text v names cx.namesOK d c hdm hc hdn]
     rfl
 
 theorem interpolate_plain (names : List Bytes) (subst : Bytes → Bytes) (msg : Bytes) (h : msg.contains dollar = false) :
@@ -625,8 +616,8 @@ theorem renderLoop_spec {msrc src : Bytes} {size off : Nat} {text : Bytes} {name
     (cx : Ctx msrc src size off text names v lo hi) (truncate : Bool) (cfg : Int) (subst : Bytes → Bytes)
     (hsubst : ∀ var, subst var = SpecC12.okBytes (interp truncate ((varText text names v var).getD []) cfg))
     (msg : Bytes) (skip : Nat) :
-    renderLoop msrc size truncate cfg (matchOf off text names v lo hi)
-        (if (namedCaps off text v 0 names).length > 1 then sortCaps (namedCaps off text v 0 names) else namedCaps off text v 0 names)
+    renderLoop truncate cfg (matchOf src off text names v lo hi)
+        (if (namedCaps src off text v 0 names).length > 1 then sortCaps (namedCaps src off text v 0 names) else namedCaps src off text v 0 names)
         skip msg = .ok (interpolate names subst skip msg) := by
   induction msg generalizing skip with
   | nil => cases skip <;> rfl
@@ -638,7 +629,7 @@ theorem renderLoop_spec {msrc src : Bytes} {size off : Nat} {text : Bytes} {name
       by_cases hb : b = 36
       · have hb' : b = dollar := hb
         rw [if_pos hb', if_pos hb]
-        have hwhole : capturedByName (matchOf off text names v lo hi) dollarDollar = some (matchOf off text names v lo hi).node := by
+        have hwhole : capturedByName (matchOf src off text names v lo hi) dollarDollar = some (matchOf src off text names v lo hi).node := by
           simp [capturedByName]
         by_cases hh : rest.head? = some 36
         · have hp : [dollar].isPrefixOf rest = true := by
@@ -656,9 +647,9 @@ theorem renderLoop_spec {msrc src : Bytes} {size off : Nat} {text : Bytes} {name
               simp only [dollar, List.isPrefixOf, Bool.and_true, beq_iff_eq]
               exact fun h => hh h.symm
           rw [if_neg hp, if_neg hh]
-          rw [find_sorted off text v names cx.namesOK rest]
-          have := find_longest off text v names cx.namesOK rest
-          cases hf : (namedCaps off text v 0 names).find? (fun d => d.name.isPrefixOf rest) with
+          rw [find_sorted src off text v names cx.namesOK rest]
+          have := find_longest src off text v names cx.namesOK rest
+          cases hf : (namedCaps src off text v 0 names).find? (fun d => d.name.isPrefixOf rest) with
           | some d =>
             rw [hf] at this
             obtain ⟨hl, hdm⟩ := this
@@ -688,7 +679,7 @@ theorem reportNode_eq (m : MatchD) (r : CRule) : reportNode m r = capturedByName
 
 theorem renderMessage_spec {msrc src : Bytes} {size off : Nat} {text : Bytes} {v : List Int} {lo hi : Int} (r : CRule)
     (cx : Ctx msrc src size off text r.names v lo hi) (truncate : Bool) (cfg : Int) (msg : Bytes) :
-    renderMessage msrc size cfg msg (matchOf off text r.names v lo hi) truncate =
+    renderMessage cfg msg (matchOf src off text r.names v lo hi) truncate =
       .ok (interpolate r.names (SpecC12.substFor text (toSpecRule r) v truncate cfg) 0 msg) := by
   unfold renderMessage
   by_cases hd : msg.contains dollar = true
@@ -719,8 +710,8 @@ def expectedReport (alt : Bool) (cfg : Int) (text : Bytes) (k : Nat) (r : CRule)
 
 theorem handle_spec {msrc src : Bytes} {size off : Nat} {text : Bytes} {v : List Int} {lo hi : Int} (alt : Bool) (cfg : Int) (k : Nat)
     (r : CRule) (cx : Ctx msrc src size off text r.names v lo hi) (hr : WFRule r) :
-    ∃ n, capturedByName (matchOf off text r.names v lo hi) (locVar r) = some n ∧
-      handleCommentMatch alt msrc size cfg k r (matchOf off text r.names v lo hi) =
+    ∃ n, capturedByName (matchOf src off text r.names v lo hi) (locVar r) = some n ∧
+      handleCommentMatch alt cfg k r (matchOf src off text r.names v lo hi) =
         .ok (if SpecC12.accepts text (toSpecRule r) v then some (expectedReport alt cfg text k r v n) else none) := by
   have hloc : VarOK r.names (locVar r) := by
     unfold locVar
@@ -729,18 +720,17 @@ theorem handle_spec {msrc src : Bytes} {size off : Nat} {text : Bytes} {v : List
     · by_cases he : r.location = []
       · rw [if_pos he]; exact .inl rfl
       · rw [if_neg he]; exact h
-  obtain ⟨n, hn, _⟩ := lookup_spec src off text r.names v lo hi cx.names0 cx.groups cx.h0 cx.h1 cx.inRange (locVar r) hloc
+  obtain ⟨n, hn, _⟩ := lookup_spec cx.view r.names v lo hi cx.names0 cx.groups cx.h0 cx.h1 cx.inRange (locVar r) hloc
   refine ⟨n, hn, ?_⟩
   unfold handleCommentMatch
-  have hfilter : filterResult msrc size (matchOf off text r.names v lo hi) r = .ok (SpecC12.accepts text (toSpecRule r) v) := by
+  have hfilter : filterResult (matchOf src off text r.names v lo hi) r = .ok (SpecC12.accepts text (toSpecRule r) v) := by
     unfold filterResult
     rw [accepts_eq]
     cases hf : r.filter with
     | none => rfl
     | some atoms =>
       simp only
-      exact evalFilter_spec msrc src size off text r.names v lo hi cx.names0 cx.groups cx.h0 cx.h1 cx.inRange cx.srcOK cx.noCR cx.fit
-        atoms (hr.filterVars atoms hf)
+      exact evalFilter_spec cx.view r.names v lo hi cx.names0 cx.groups cx.h0 cx.h1 cx.inRange atoms (hr.filterVars atoms hf)
   rw [hfilter]
   simp only [Res.bind]
   cases hacc : SpecC12.accepts text (toSpecRule r) v with
@@ -785,21 +775,21 @@ theorem firstAccepting_eq (text : Bytes) (k : Nat) (rules : List CRule) :
       · simp [ha]
       · simp only [ha, Bool.false_eq_true, if_false]; exact ih (k + 1)
 
-theorem ctx_of {msrc src : Bytes} {size off : Nat} {text : Bytes} {r : CRule} (hok : RuleOK text r) (hs : SrcOK msrc src)
-    (hno : NoCR src off text) (hfit : off + text.length ≤ size) (v : List Int) (hv : r.sub = some v) :
+theorem ctx_of {msrc src : Bytes} {size off : Nat} {text : Bytes} {r : CRule} (hok : RuleOK text r)
+    (vw : View msrc src size off text) (v : List Int) (hv : r.sub = some v) :
     ∃ lo hi, Ctx msrc src size off text r.names v lo hi ∧
-      buildMatch size off text r = .ok (some (matchOf off text r.names v lo hi)) := by
-  obtain ⟨lo, hi, h0, h1, hin, hb⟩ := (buildMatch_spec size off text r hok.oracle hfit).2 v hv
-  exact ⟨lo, hi, ⟨hok.oracle.names0, (hok.oracle.groups v hv).1, h0, h1, hin, hs, hno, hfit, hok.namesOK, hok.noDollar⟩, hb⟩
+      buildMatch msrc size off text r = .ok (some (matchOf src off text r.names v lo hi)) := by
+  obtain ⟨lo, hi, h0, h1, hin, hb⟩ := (buildMatch_spec vw r hok.oracle).2 v hv
+  exact ⟨lo, hi, ⟨hok.oracle.names0, (hok.oracle.groups v hv).1, h0, h1, hin, vw, hok.namesOK, hok.noDollar⟩, hb⟩
 
 /-- the loop delivers exactly what the spec's first accepting rule prescribes -/
-theorem run_spec (alt : Bool) (msrc src : Bytes) (size : Nat) (cfg : Int) (off : Nat) (text : Bytes) (hs : SrcOK msrc src)
-    (hno : NoCR src off text) (hfit : off + text.length ≤ size) (rules : List CRule) (k : Nat)
+theorem run_spec (alt : Bool) (msrc src : Bytes) (size : Nat) (cfg : Int) (off : Nat) (text : Bytes)
+    (vw : View msrc src size off text) (rules : List CRule) (k : Nat)
     (hrules : ∀ r, r ∈ rules → RuleOK text r) :
     match firstAcc text k rules with
     | none => runFrom alt msrc size cfg off text k rules = .ok none
     | some (k', r, v) => ∃ lo hi n, Ctx msrc src size off text r.names v lo hi ∧ WFRule r ∧ r ∈ rules ∧
-        capturedByName (matchOf off text r.names v lo hi) (locVar r) = some n ∧
+        capturedByName (matchOf src off text r.names v lo hi) (locVar r) = some n ∧
         runFrom alt msrc size cfg off text k rules = .ok (some (expectedReport alt cfg text k' r v n)) := by
   induction rules generalizing k with
   | nil => rfl
@@ -810,7 +800,7 @@ theorem run_spec (alt : Bool) (msrc src : Bytes) (size : Nat) (cfg : Int) (off :
     cases hsub : r.sub with
     | none =>
       simp only
-      rw [(buildMatch_spec size off text r hok.oracle hfit).1 hsub]
+      rw [(buildMatch_spec vw r hok.oracle).1 hsub]
       simp only [Res.bind]
       cases hfa : firstAcc text (k + 1) rest with
       | none => rw [hfa] at ihr; exact ihr
@@ -820,7 +810,7 @@ theorem run_spec (alt : Bool) (msrc src : Bytes) (size : Nat) (cfg : Int) (off :
         exact ⟨lo, hi, n, cx, hwr, List.mem_cons_of_mem _ hmem, hn, hrun⟩
     | some v =>
       simp only
-      obtain ⟨lo, hi, cx, hb⟩ := ctx_of hok hs hno hfit v hsub
+      obtain ⟨lo, hi, cx, hb⟩ := ctx_of hok vw v hsub
       obtain ⟨n, hn, hh⟩ := handle_spec alt cfg k r cx hok.rule
       rw [hb]
       simp only [Res.bind, hh]
